@@ -103,7 +103,7 @@ class Gen:
         ty = r.choice(TYPES)
         d = [("type", A.J(ty))]
         if r.chance(1, 2):
-            d.append(("name", A.J(r.choice(["t1", "t2", "lat"]))))
+            d.append(("name", A.J(r.choice(["t1", "t2", "lat"] + (["t+1"] if getattr(self, "special_names", False) else [])))))
         if r.chance(1, 2):
             d.append(("stream", A.J(r.choice(["upstream", "downstream", "downstream", "Upstream", "DOWNSTREAM"]))))
         if r.chance(1, 2):
@@ -136,7 +136,7 @@ class Gen:
         r = self.rng
         n = r.choice(self.names)
         types = known if isinstance(known, dict) else {}
-        tn = r.choice([k for k in known if not k.startswith("_proxy_")] + ["t1", "lat", "latency_downstream", "nope"]) if not types or r.chance(1, 5) else r.choice(sorted(k for k in types if not k.startswith("_proxy_")))
+        tn = r.choice([k for k in known if not k.startswith("_proxy_")] + ["t1", "lat", "latency_downstream", "nope"] + (["t+1", "t 1"] if False else []) + (["t+1"] if getattr(self, "special_names", False) else [])) if not types or r.chance(1, 5) else r.choice(sorted(k for k in types if not k.startswith("_proxy_")))
         fields = A.TOXIC_FIELDS.get(types.get(tn, ""), []) or ["latency", "jitter", "rate", "bytes", "timeout", "delay", "average_size"]
         k = r.choice(["attrs", "toxicity", "both", "illtyped", "illtyped", "illtyped", "shape"])
         m = r.choice(["POST", "PATCH"])
@@ -198,8 +198,8 @@ class Gen:
         n = r.choice(self.names + ["zz"])
         return r.choice([
             A.req("GET", "/proxies"), A.req("GET", "/proxies/" + n), A.req("DELETE", "/proxies/" + n),
-            A.req("GET", "/proxies/%s/toxics" % n), A.req("GET", "/proxies/%s/toxics/%s" % (n, r.choice(["t1", "lat", "latency_downstream", "nope"]))),
-            A.req("DELETE", "/proxies/%s/toxics/%s" % (n, r.choice(["t1", "t2", "lat", "latency_downstream", "nope"]))),
+            A.req("GET", "/proxies/%s/toxics" % n), A.req("GET", "/proxies/%s/toxics/%s" % (n, r.choice(["t1", "lat", "latency_downstream", "nope"] + (["t+1"] if getattr(self, "special_names", False) else [])))),
+            A.req("DELETE", "/proxies/%s/toxics/%s" % (n, r.choice(["t1", "t2", "lat", "latency_downstream", "nope"] + (["t+1"] if getattr(self, "special_names", False) else [])))),
             A.req("POST", "/reset"), A.req("GET", "/version"), A.req("GET", "/nothing"), A.req("PUT", "/proxies"),
             A.req("DELETE", "/proxies"), A.req("GET", "/proxies/a/b/c/d/e"), A.req("POST", "/version"), A.req("HEAD", "/proxies"),
         ])
@@ -234,6 +234,10 @@ def gen_cases(ctx, rng):
     nrand = 120 if ctx.tier == "quick" else 4000
     for i in range(nrand):
         g = Gen(rng, port_base(i % 5))
+        if i % 4 == 3:
+            # names with characters that mean something in URLs (a literal '+', '.', '-', '~', ':', '@' in a path segment stands for itself)
+            g.names = [rng.choice(["a+b", "redis+sentinel", "x.y-z", "n~1", "u:v", "p@q"]), rng.choice(["b", "db+1", "c+"])]
+            g.special_names = True
         reqs = []
         for _ in range(rng.range(5, 40)):
             reqs.append(g.any(["t1", "t2"]))
@@ -430,7 +434,7 @@ def run(ctx):
         ctx, PID, gen_cases, oracle,
         classify=lambda w: "browser" if "browser" in w else ("defaults" if "default" in w else ("duplicate" if "duplicate" in w or "share a name" in w
                            else ("unknown-name" if "unknown" in w else ("read-your-writes" if "reflect" in w or "listed" in w else "other")))),
-        rule="random request sequences (5-40 requests) over 2 proxy names, 2 ports, 2 upstreams, every route and method, valid bodies, "
+        rule="random request sequences (5-40 requests) over 2 proxy names (a quarter of the sequences with names containing + . - ~ : @), 2 ports, 2 upstreams, every route and method, valid bodies, "
              "field-aware ill-typed bodies, shapes (null, array, empty, syntax errors), key-case variants, unknown keys, browser user agents; "
              "plus a fixed setup followed by every ordered pair over a compact request alphabet; non-trivial = more than one request; distinct by JSON",
         assumptions=["encoding/json's text parser and gorilla/mux matching are exercised, not modelled (the route table is extracted)",
